@@ -133,6 +133,21 @@ funcs: spifconf_shell_expand
 */
 /*@unit
 name: exact_call_prefix
+define: U_EXACT, A_SPACE, A_PCT, A_PAREN, SHAPE="?%a(a)", NMAX=6, BUFF=32, VERIF_EXACT_LIBC, VERIF_OWN_STRLEN, VERIF_OWN_STRCMP, VERIF_OWN_STRDUP, VERIF_OWN_STRCHR
+src: conf.c
+tier: B
+bound: inputs of the shape ?%a(a) -- each ? any of {a, space, %, (, )} -- in which every % starts a balanced call; line-buffer limit CONFIG_BUFF scaled to 32 bytes (stated re-binding)
+unwind: 8
+flags: --unwindset strlen.0:16,strcpy.0:16,vb_a.0:16,spiftool_safe_strncpy.0:12,mk_str.0:6,strncasecmp.0:3,spifconf_shell_expand:1,spifconf_shell_expand.7:2,spifconf_shell_expand.10:6,spifconf_shell_expand.15:1,spifconf_shell_expand.21:1,spifconf_shell_expand.22:1,spifconf_shell_expand.23:1,spifconf_shell_expand.28:7,spifconf_shell_expand.29:7,check_exact.0:8,check_exact.1:42
+objbits: 10
+backend: sat
+timeout: 600
+quick: yes
+native: self
+funcs: spifconf_shell_expand
+*/
+/*@unit
+name: exact_call_prefix2
 define: U_EXACT, A_SPACE, A_PCT, A_PAREN, SHAPE="??%a(a)", NMAX=7, BUFF=32, VERIF_EXACT_LIBC, VERIF_OWN_STRLEN, VERIF_OWN_STRCMP, VERIF_OWN_STRDUP, VERIF_OWN_STRCHR
 src: conf.c
 tier: B
@@ -142,7 +157,7 @@ flags: --unwindset strlen.0:16,strcpy.0:16,vb_a.0:16,spiftool_safe_strncpy.0:12,
 objbits: 10
 backend: sat
 timeout: 600
-quick: yes
+quick: no
 native: self
 funcs: spifconf_shell_expand
 */
@@ -255,6 +270,22 @@ funcs: spifconf_shell_expand
 */
 /*@unit
 name: reads_percent_ok
+define: U_READS, VB_NOGROW, A_SPACE, A_PCT, A_PAREN, D_FLAGS=0u, NMAX=4, BUFF=32, VERIF_EXACT_LIBC, VERIF_OWN_STRLEN, VERIF_OWN_STRCMP, VERIF_OWN_STRDUP, VERIF_OWN_STRCHR
+src: conf.c
+tier: B
+bound: input <= 4 characters over {a, space, %, (, )}, every % a balanced call, in a block of exactly strlen+1 bytes; the built-in returns NULL or ""; line-buffer limit CONFIG_BUFF scaled to 32 bytes (stated re-binding)
+unwind: 6
+flags: --unwindset strlen.0:10,strcpy.0:10,vb_a.0:10,spiftool_safe_strncpy.0:12,mk_str.0:6,strncasecmp.0:3,spifconf_shell_expand:1,spifconf_shell_expand.7:2,spifconf_shell_expand.10:4,spifconf_shell_expand.15:1,spifconf_shell_expand.21:1,spifconf_shell_expand.22:1,spifconf_shell_expand.23:1,spifconf_shell_expand.28:5,spifconf_shell_expand.29:5
+objbits: 10
+backend: sat
+timeout: 900
+quick: no
+mem: 12
+native: self
+funcs: spifconf_shell_expand
+*/
+/*@unit
+name: reads_percent_ok_5
 define: U_READS, VB_NOGROW, A_SPACE, A_PCT, A_PAREN, D_FLAGS=0u, NMAX=5, BUFF=32, VERIF_EXACT_LIBC, VERIF_OWN_STRLEN, VERIF_OWN_STRCMP, VERIF_OWN_STRDUP, VERIF_OWN_STRCHR
 src: conf.c
 tier: B
@@ -264,13 +295,29 @@ flags: --unwindset strlen.0:10,strcpy.0:10,vb_a.0:10,spiftool_safe_strncpy.0:12,
 objbits: 10
 backend: sat
 timeout: 900
-quick: yes
+quick: no
 mem: 12
 native: self
 funcs: spifconf_shell_expand
 */
 /*@unit
 name: reads_percent_lone
+define: U_READS, VB_NOGROW, A_SPACE, A_PCT, A_PAREN, D_FLAGS=RF_LONEPCT, D_NEED=RF_LONEPCT, NMAX=3, BUFF=32, VERIF_EXACT_LIBC, VERIF_OWN_STRLEN, VERIF_OWN_STRCMP, VERIF_OWN_STRDUP, VERIF_OWN_STRCHR
+src: conf.c
+tier: B
+bound: input <= 3 characters over {a, space, %, (, )} with a % that starts no call, in a block of exactly strlen+1 bytes; line-buffer limit CONFIG_BUFF scaled to 32 bytes (stated re-binding)
+unwind: 5
+flags: --unwindset strlen.0:10,strcpy.0:10,vb_a.0:10,spiftool_safe_strncpy.0:12,mk_str.0:6,strncasecmp.0:3,spifconf_shell_expand:1,spifconf_shell_expand.7:2,spifconf_shell_expand.10:3,spifconf_shell_expand.15:1,spifconf_shell_expand.21:1,spifconf_shell_expand.22:1,spifconf_shell_expand.23:1,spifconf_shell_expand.28:4,spifconf_shell_expand.29:4
+objbits: 10
+backend: sat
+timeout: 900
+quick: yes
+mem: 12
+native: self
+funcs: spifconf_shell_expand
+*/
+/*@unit
+name: reads_percent_lone_5
 define: U_READS, VB_NOGROW, A_SPACE, A_PCT, A_PAREN, D_FLAGS=RF_LONEPCT, D_NEED=RF_LONEPCT, NMAX=5, BUFF=32, VERIF_EXACT_LIBC, VERIF_OWN_STRLEN, VERIF_OWN_STRCMP, VERIF_OWN_STRDUP, VERIF_OWN_STRCHR
 src: conf.c
 tier: B
@@ -280,13 +327,29 @@ flags: --unwindset strlen.0:10,strcpy.0:10,vb_a.0:10,spiftool_safe_strncpy.0:12,
 objbits: 10
 backend: sat
 timeout: 900
-quick: yes
+quick: no
 mem: 12
 native: self
 funcs: spifconf_shell_expand
 */
 /*@unit
 name: reads_percent_open
+define: U_READS, VB_NOGROW, A_SPACE, A_PCT, A_PAREN, D_FLAGS=RF_MISMATCH, D_NEED=RF_MISMATCH, NMAX=3, BUFF=32, VERIF_EXACT_LIBC, VERIF_OWN_STRLEN, VERIF_OWN_STRCMP, VERIF_OWN_STRDUP, VERIF_OWN_STRCHR
+src: conf.c
+tier: B
+bound: input <= 3 characters over {a, space, %, (, )} with an unclosed %a(, in a block of exactly strlen+1 bytes; line-buffer limit CONFIG_BUFF scaled to 32 bytes (stated re-binding)
+unwind: 5
+flags: --unwindset strlen.0:10,strcpy.0:10,vb_a.0:10,spiftool_safe_strncpy.0:12,mk_str.0:6,strncasecmp.0:3,spifconf_shell_expand:1,spifconf_shell_expand.7:2,spifconf_shell_expand.10:3,spifconf_shell_expand.15:1,spifconf_shell_expand.21:1,spifconf_shell_expand.22:1,spifconf_shell_expand.23:1,spifconf_shell_expand.28:4,spifconf_shell_expand.29:4
+objbits: 10
+backend: sat
+timeout: 900
+quick: yes
+mem: 12
+native: self
+funcs: spifconf_shell_expand
+*/
+/*@unit
+name: reads_percent_open_5
 define: U_READS, VB_NOGROW, A_SPACE, A_PCT, A_PAREN, D_FLAGS=RF_MISMATCH, D_NEED=RF_MISMATCH, NMAX=5, BUFF=32, VERIF_EXACT_LIBC, VERIF_OWN_STRLEN, VERIF_OWN_STRCMP, VERIF_OWN_STRDUP, VERIF_OWN_STRCHR
 src: conf.c
 tier: B
@@ -296,7 +359,7 @@ flags: --unwindset strlen.0:10,strcpy.0:10,vb_a.0:10,spiftool_safe_strncpy.0:12,
 objbits: 10
 backend: sat
 timeout: 900
-quick: yes
+quick: no
 mem: 12
 native: self
 funcs: spifconf_shell_expand
@@ -905,6 +968,9 @@ static void check_spawn(void)                       /* w_in / w_len: the input *
     for (i = 0; i < w_len; i++) if (w_in[i] == '`') bq = 1;
     buf = malloc(CONFIG_BUFF);
     for (i = 0; i <= w_len; i++) buf[i] = w_in[i];
+#ifdef SPAWN_CASES
+    for (; i < CONFIG_BUFF; i++) buf[i] = 0;            /* concrete texts: concrete (empty) leftovers, cbmc just executes */
+#endif
     vg_spawned = 0;
     (void) spifconf_shell_expand(buf);
     __CPROVER_assert(bq || has_exec_directive(w_in, w_len) || vg_spawned == 0,
